@@ -93,11 +93,14 @@ def c11(tier, replay):
     # (1b) the algorithm: the hand-written indexed heap of no_duplicate.rs (NoDupHeap.tla) refines Fringe.tla and keeps its invariants
     r = mc("NoDupHeap", "MC_NoDupHeap.cfg", workers=8, require_actions=False)
     chk.add_mc("MC_NoDupHeap.cfg", r, constants=open(os.path.join(SPEC, "MC_NoDupHeap.cfg")).read().split("\n")[1])
+    if thorough:
+        r = mc("NoDupHeap", "MC_NoDupHeap_ops6.cfg", workers=12, require_actions=False, timeout=3600)
+        chk.add_mc("MC_NoDupHeap_ops6.cfg", r, constants=open(os.path.join(SPEC, "MC_NoDupHeap_ops6.cfg")).read().split("\n")[1])
     r = simulate("NoDupHeap", "MC_NoDupHeap_sim.cfg", 5000 if not thorough else 60000, 17)
     chk.add_mc("MC_NoDupHeap_sim.cfg (simulation)", r, constants=open(os.path.join(SPEC, "MC_NoDupHeap_sim.cfg")).read().split("\n")[1] + f"; {r['traces']} random behaviours of depth <= 17")
     # (2) specification -> implementation: every edge of the finite fringe-content graph replayed on the real fringes,
     #     (3) plus seeded random long sequences; every trace validated by TraceFringe
-    nrand, rlen = (400, 120) if not thorough else (6000, 200)
+    nrand, rlen = (400, 120) if not thorough else (20000, 200)
     samples = []
     for kind in ["simple", "nodup"]:
         paths = seqs_from_graph("MC_Fringe", f"MC_Fringe_{kind}_graph.cfg", f"fringe_{kind}", fringe_op, 40, chk)
@@ -138,7 +141,7 @@ def c11(tier, replay):
 def stores_part(chk, w, tier, want):
     """want: 'C10' or 'C18' -- both run the same histories; each check reports its own tags"""
     thorough = tier == "thorough"
-    nrand, rlen = (150, 150) if not thorough else (3000, 300)
+    nrand, rlen = (150, 150) if not thorough else (8000, 300)
     if want == "C18":
         r = mc("MC_Cache", "MC_Cache.cfg", workers=8, require_actions=False)
         chk.add_mc("MC_Cache.cfg", r, constants=open(os.path.join(SPEC, "MC_Cache.cfg")).read().split("\n")[1])
@@ -182,7 +185,7 @@ def c18(tier, replay):
     thorough = tier == "thorough"
     stores_part(chk, w, tier, "C18")
     # concurrent part: linearisability of real-thread histories
-    phases = 600 if not thorough else 6000
+    phases = 600 if not thorough else 12000
     batches = 1 if not thorough else 8
     rejected = 0
     for b in range(batches + 1):
